@@ -27,6 +27,7 @@ type c19Config struct {
 	Options     bool     `json:"options_filter"`
 	Extra       int      `json:"extra_container_filters"`
 	Entity      bool     `json:"handlers_write_entities"`
+	Adapter     bool     `json:"adapted_middleware_filter"`
 }
 
 // mk builds a fresh container for the configuration.
@@ -65,6 +66,15 @@ func (cf *c19Config) mk(t *rt.Table) *restful.Container {
 	}
 	for i := 0; i < cf.Extra; i++ {
 		c.Filter(rt.SelFilter(fmt.Sprintf("extra:%d", i)))
+	}
+	if cf.Adapter {
+		// a net/http middleware adapted into the chain; it dwells a moment before handing on
+		c.Filter(restful.HttpMiddlewareHandlerToFilter(func(next http.Handler) http.Handler {
+			return http.HandlerFunc(func(w http.ResponseWriter, r *http.Request) {
+				runtime.Gosched()
+				next.ServeHTTP(w, r)
+			})
+		}))
 	}
 	c.Filter(rt.SelFilter("container"))
 	for i := range t.Svcs {
@@ -126,7 +136,7 @@ func c19(ctx *core.Ctx) {
 			continue
 		}
 		r := ctx.Rand(ci, "cfg")
-		cf := &c19Config{Router: routerOf(ci), Entry: rt.Dispatch, Encoding: r.Chance(1, 2), CORS: r.Chance(2, 3), Options: r.Chance(1, 3), Extra: r.Intn(6), Entity: r.Chance(1, 2)}
+		cf := &c19Config{Router: routerOf(ci), Entry: rt.Dispatch, Encoding: r.Chance(1, 2), CORS: r.Chance(2, 3), Options: r.Chance(1, 3), Extra: r.Intn(6), Entity: r.Chance(1, 2), Adapter: r.Chance(1, 3)}
 		if ci%4 >= 2 {
 			cf.Entry = rt.ServeHTTP
 		}
@@ -139,6 +149,11 @@ func c19(ctx *core.Ctx) {
 		// one route that can negotiate between two registered representations
 		neg := &t.Svcs[0].Routes[0]
 		neg.Method, neg.Produces, neg.Consumes, neg.Conds, neg.NoCT = "GET", []string{restful.MIME_JSON, restful.MIME_XML}, nil, nil, nil
+		// its own content-encoding setting is the opposite of the container's
+		neg.Enc = 1
+		if cf.Encoding {
+			neg.Enc = 2
+		}
 		// and one that produces a single representation (whatever the Accept header looks like, the answer must be one and the same)
 		lastSvc := &t.Svcs[len(t.Svcs)-1]
 		neg1 := &lastSvc.Routes[len(lastSvc.Routes)-1]
@@ -226,7 +241,7 @@ func c19(ctx *core.Ctx) {
 			ctx.Eval(1)
 		}
 		c := cf.mk(t)
-		shape := fmt.Sprintf("%s|%s|enc=%v|cors=%v/%d|opt=%v|extra=%d|entity=%v", cf.Router, cf.Entry, cf.Encoding, cf.CORS, len(cf.CORSMethods), cf.Options, cf.Extra, cf.Entity)
+		shape := fmt.Sprintf("%s|%s|enc=%v|cors=%v/%d|opt=%v|extra=%d|entity=%v|adapter=%v", cf.Router, cf.Entry, cf.Encoding, cf.CORS, len(cf.CORSMethods), cf.Options, cf.Extra, cf.Entity, cf.Adapter)
 		compare := func(i int, out *rt.Outcome, phase string) {
 			ctx.Eval(1)
 			got := c19Sig(out)
